@@ -60,6 +60,7 @@ import (
 
 func TestMain(m *testing.M) {
 	simcore.InitProcess()
+	profStart()
 	os.Exit(m.Run())
 }
 
@@ -106,15 +107,15 @@ func genConfig(rng *simcore.RNG, env *simcore.Env) simcore.Op {
 		c["nops"] = rng.Range(60, 380)
 	}
 	c["gossip_ms"] = []int{10, 30, 100}[rng.Intn(3)]
-	c["maj23_ms"] = []int{50, 250, 2000}[rng.Intn(3)]
-	c["commit_ms"] = []int{15, 40, 120}[rng.Intn(3)]
+	c["maj23_ms"] = []int{50, 250, 1000}[rng.Intn(3)]
+	c["commit_ms"] = []int{30, 80, 200}[rng.Intn(3)]
 	c["pex"] = rng.Bool(0.7)
 	c["max_tx"] = []int{512, 4096, 65536}[rng.Intn(3)]
 	c["mp_size"] = []int{5, 50, 500}[rng.Intn(3)]
 	c["big"] = []int{14, 18, 20, 22, 24}[rng.Intn(5)] // log2 of the "large but not absurd" attacker-chosen sizes
 	var fam []string
 	for _, f := range families {
-		if rng.Bool(0.6) {
+		if rng.Bool(0.55) || (f == "cons" && rng.Bool(0.7)) {
 			fam = append(fam, f)
 		}
 	}
@@ -124,7 +125,7 @@ func genConfig(rng *simcore.RNG, env *simcore.Env) simcore.Op {
 	c["fam"] = fam
 	c["byz"] = rng.Bool(0.6)   // hostile messages validly signed by validator 2
 	c["late"] = rng.Bool(0.5)  // deliveries for peers that were already removed
-	c["mute"] = rng.Bool(0.15) // a peer whose send queue is always full
+	c["mute"] = rng.Bool(0.08) // a peer whose send queue is always full
 	c["tick"] = []int{15, 30, 50}[rng.Intn(3)]
 	return c
 }
@@ -460,9 +461,17 @@ type sim struct {
 	evDone   map[int64]bool
 	lastPex  time.Time
 	pexCount int
+	lastBig     string // kind of the last delivered hostile message that carried a large size
+	lastBigDesc string
 	closed   bool
+	dead     bool // a known finding ended the useful part of the run
 	switched bool // fast sync handed over to consensus
 	quar     int
+
+	// generator memo (Next only): the last "own" part set validator 2 proposed
+	ownSeedMemo int
+	ownNpMemo   int
+	ownDataMemo string
 
 	memBase runtime.MemStats
 }
@@ -486,9 +495,12 @@ func newSim(env *simcore.Env, c simcore.Op) simcore.Sim {
 	s.chainID = "reactorsim-chain"
 	s.buildNode()
 	s.t0 = time.Now()
-	s.budget = 9 * time.Second
-	if s.mode != "live" {
-		s.budget = 16 * time.Second
+	s.budget = 2500 * time.Millisecond
+	switch s.mode {
+	case "fastsync":
+		s.budget = 5 * time.Second
+	case "statesync":
+		s.budget = 14 * time.Second
 	}
 	// every action of the simulator happens off the 100us grid of the consensus reactor's
 	// round-state ticker
@@ -559,12 +571,6 @@ func (s *sim) nodeConfig() *cfg.Config {
 	c.Instrumentation.Prometheus = false
 	c.RPC.ListenAddress = ""
 	return c
-}
-
-type appCreator struct {
-	inner interface {
-		NewABCIClient() (interface{}, error)
-	}
 }
 
 func (s *sim) buildNode() {
@@ -839,13 +845,29 @@ func (s *sim) checkFailures(ctx string) {
 		s.mu.Lock()
 		s.failures = nil
 		s.mu.Unlock()
-		if s.env.Report("C17", "consensus-failure", "%s: the node's consensus routine died: %s\n%s", ctx, line, trimStack(first)) {
+		sig := "consensus-failure:" + slug(strings.TrimPrefix(line, "CONSENSUS FAILURE!!!"))
+		if s.env.Report("C17", sig, "%s: the node's consensus routine died: %s\n%s", ctx, line, trimStack(first)) {
 			panic(simStop{})
 		}
+		// known finding: consensus is dead, nothing further can be learnt from this run
+		s.dead = true
+		panic(simStop{})
 	}
 }
 
+
 type simStop struct{}
+
+var reSlug = regexp.MustCompile(`[^a-zA-Z]+`)
+
+// slug turns a panic message into a stable signature part (no numbers, no addresses).
+func slug(m string) string {
+	m = strings.Trim(reSlug.ReplaceAllString(m, "-"), "-")
+	if len(m) > 48 {
+		m = m[:48]
+	}
+	return m
+}
 
 func trimStack(s string) string {
 	lines := strings.Split(s, "\n")
@@ -865,20 +887,36 @@ func trimStack(s string) string {
 
 const allocBase = 32 << 20
 
-func (s *sim) memBefore() uint64 {
+type memMark struct {
+	alloc uint64
+	at    time.Time
+}
+
+func (s *sim) memBefore() memMark {
 	var m runtime.MemStats
 	runtime.ReadMemStats(&m)
-	return m.TotalAlloc
+	return memMark{m.TotalAlloc, time.Now()}
 }
 
 // memAfter is oracle (d) for one stimulus.
-func (s *sim) memAfter(before uint64, msgLen int, simDur time.Duration, ctx string, pm *peerM) {
+func (s *sim) memAfter(mark memMark, msgLen int, _ time.Duration, ctx string, pm *peerM) {
 	var m runtime.MemStats
 	runtime.ReadMemStats(&m)
-	d := m.TotalAlloc - before
+	d := m.TotalAlloc - mark.alloc
+	simDur := time.Since(mark.at)
 	budget := uint64(allocBase) + 16*uint64(msgLen) + uint64(simDur.Seconds()*float64(48<<20))
 	if d > uint64(s.env.Stat("max.alloc_per_op")) {
 		s.env.Add("max.alloc_per_op", int64(d)-s.env.Stat("max.alloc_per_op"))
+	}
+	if d > budget/4 {
+		tag := "nobig"
+		if s.lastBig != "" {
+			tag = "big"
+		}
+		s.env.Count("probe.alloc_over_quarter_budget." + tag)
+		if d > budget/2 {
+			s.env.Count("probe.alloc_over_half_budget." + tag)
+		}
 	}
 	if d <= budget {
 		return
@@ -890,6 +928,10 @@ func (s *sim) memAfter(before uint64, msgLen int, simDur time.Duration, ctx stri
 	kind := ctx
 	if i := strings.IndexByte(kind, ' '); i > 0 {
 		kind = kind[:i]
+	}
+	if s.lastBig != "" && !strings.HasPrefix(kind, "cons.") && !strings.HasPrefix(kind, "ss.") {
+		kind = "after-" + s.lastBig
+		ctx += " (last message with an attacker-chosen large size: " + s.lastBigDesc + ")"
 	}
 	if !s.env.Report("C17", "alloc-amplification:"+kind, "%s (peer %s): the node allocated %d MiB during this stimulus (message of %d bytes, %v simulated); budget %d MiB", ctx, who, d>>20, msgLen, simDur, budget>>20) {
 		s.quarantineAll("alloc-amplification")
@@ -936,6 +978,9 @@ func tryPanic(f func()) (msg string) {
 // operations the reactor's gossip routines apply to it on their next wake-up - outside any
 // recover, so a panic there ends the process. It runs while those routines are asleep.
 func (s *sim) probeGossip(ctx string) {
+	if os.Getenv("REACTORSIM_NOPROBE") != "" {
+		return // demonstration mode: let the node's own goroutine reach the poisoned state
+	}
 	rs := s.conS.GetRoundState()
 	nvals := 0
 	if rs.Validators != nil {
@@ -1017,7 +1062,7 @@ func (s *sim) probeGossip(ctx string) {
 var reRoutine = regexp.MustCompile(`consensus\.\(\*Reactor\)\.(gossipDataRoutine|gossipVotesRoutine|queryMaj23Routine)|\(\*Reactor\)\.(broadcastTxRoutine|broadcastEvidenceRoutine)`)
 
 // census counts, per kind, the per-peer goroutines of the reactors inside this bubble.
-func census() (map[string]int, string) {
+func census() (map[string]int, map[string]string) {
 	buf := make([]byte, 1<<22)
 	n := runtime.Stack(buf, true)
 	gs := strings.Split(string(buf[:n]), "\n\n")
@@ -1033,7 +1078,7 @@ func census() (map[string]int, string) {
 		}
 	}
 	out := map[string]int{}
-	var sample string
+	sample := map[string]string{}
 	for _, g := range gs {
 		first := g
 		if i := strings.IndexByte(first, '\n'); i > 0 {
@@ -1048,9 +1093,7 @@ func census() (map[string]int, string) {
 				k = m[2]
 			}
 			out[k]++
-			if sample == "" {
-				sample = g
-			}
+			sample[k] = g
 		}
 	}
 	return out, sample
@@ -1095,7 +1138,7 @@ func (s *sim) gonePeers() []int {
 // ---------------------------------------------------------------- op generation
 
 func (s *sim) Next(rng *simcore.RNG) simcore.Op {
-	if s.opsLeft <= 0 || s.closed {
+	if s.opsLeft <= 0 || s.closed || s.dead {
 		return nil
 	}
 	if s.elapsed() > s.budget {
@@ -1157,7 +1200,10 @@ func (s *sim) Next(rng *simcore.RNG) simcore.Op {
 		return op
 	default:
 		us := []int{300, 1000, 3000, 10000, 30000, 100000, 300000}[rng.Weighted([]int{2, 3, 4, 5, 5, 4, 2})]
-		if s.mode != "live" && rng.Bool(0.3) {
+		if s.mode == "fastsync" && !s.consensusRunning() && rng.Bool(0.3) {
+			us = []int{500000, 1100000}[rng.Intn(2)]
+		}
+		if s.mode == "statesync" && rng.Bool(0.4) {
 			us = []int{1000000, 2500000}[rng.Intn(2)]
 		}
 		return simcore.Op{"a": "tick", "us": us + rng.Intn(90)}
@@ -1167,7 +1213,7 @@ func (s *sim) Next(rng *simcore.RNG) simcore.Op {
 // ---------------------------------------------------------------- apply
 
 func (s *sim) Apply(op simcore.Op) (ok bool) {
-	if s.closed {
+	if s.closed || s.dead {
 		return false
 	}
 	defer func() {
@@ -1175,9 +1221,6 @@ func (s *sim) Apply(op simcore.Op) (ok bool) {
 			if _, is := r.(simStop); is {
 				// a violation was recorded by Report on the driver goroutine
 				ok = true
-				if s.env.Failed() {
-					panic(r2v())
-				}
 				return
 			}
 			panic(r)
@@ -1282,6 +1325,10 @@ func (s *sim) hostileDelivery(pm *peerM, h *hostileMsg) {
 	e := s.env
 	wasLive := pm.live
 	m0 := s.memBefore()
+	if h.big != "" && wasLive {
+		s.lastBig, s.lastBigDesc = h.kind, fmt.Sprintf("%s from peer %d with %s", h.kind, pm.idx, h.big)
+		e.Count("fault.big_size_msg")
+	}
 	returned := s.deliver(pm, h.ch, h.bz, h.kind)
 	e.Count("op.hostile")
 	e.Count("hostile." + h.kind)
@@ -1315,6 +1362,9 @@ func (s *sim) Finish() {
 			panic(r)
 		}
 	}()
+	if s.dead {
+		return
+	}
 	s.finalChecks()
 }
 
@@ -1338,16 +1388,22 @@ func (s *sim) teardown() {
 		}
 	}
 	s.env.Settle()
-	for _, n := range s.names {
+	stop := func(n string) {
 		r := s.sw.Reactor(n)
-		if r.IsRunning() {
+		if r != nil && r.IsRunning() {
 			func() {
 				defer func() { recover() }()
 				r.Stop()
 			}()
 		}
 	}
+	for _, n := range s.names {
+		if n != "STATESYNC" {
+			stop(n)
+		}
+	}
 	s.env.Settle()
+	defer stop("STATESYNC")
 	if s.syncDone != nil {
 		// the state sync loop ends once a snapshot is on offer and the (aborting) provider /
 		// application refuse it for good
